@@ -2,6 +2,7 @@
 package props
 
 import (
+	"os"
 	"fmt"
 	"hash/fnv"
 	"sort"
@@ -58,9 +59,22 @@ func (c *Ctx) Note(format string, a ...interface{}) {
 }
 
 // Ev folds something observable into the event-log hash (determinism self-test).
+// evDump (developer aid, VERIF_EVDUMP=<file>): the event log in clear, to find out what differs when the
+// determinism self-test reports a mismatch.
+var evDump = func() *os.File {
+	if p := os.Getenv("VERIF_EVDUMP"); p != "" {
+		f, _ := os.Create(p)
+		return f
+	}
+	return nil
+}()
+
 func (c *Ctx) Ev(parts ...interface{}) {
 	h := fnv.New64a()
 	fmt.Fprint(h, parts...)
+	if evDump != nil {
+		fmt.Fprintln(evDump, parts...)
+	}
 	c.evh = (c.evh ^ h.Sum64()) * 1099511628211
 }
 
